@@ -347,6 +347,14 @@ RETCODE adfSetEntryComment ( struct AdfVolume * const vol,
     entry.commLen = (uint8_t) min ( (unsigned) MAXCMMTLEN, strlen ( newCmt ) );
     memcpy(entry.comment, newCmt, entry.commLen);
 
+    /* the directory cache first: a longer record may need a new cache block,
+       and nothing has been changed yet if none can be had */
+    if (isDIRCACHE(vol->dosType)) {
+        rc = adfUpdateCache ( vol, &parent, (struct bEntryBlock*) &entry, TRUE );
+        if ( rc != RC_OK )
+            return rc;
+    }
+
     if ( entry.secType == ST_DIR ) {
         rc = adfWriteDirBlock ( vol, nSect, (struct bDirBlock*) &entry );
         if ( rc != RC_OK )
@@ -361,9 +369,6 @@ RETCODE adfSetEntryComment ( struct AdfVolume * const vol,
         (*adfEnv.wFct)("adfSetEntryComment : entry secType incorrect");
         // abort here?
     }
-
-    if (isDIRCACHE(vol->dosType))
-        rc = adfUpdateCache ( vol, &parent, (struct bEntryBlock*) &entry, TRUE );
 
     return rc;
 }
